@@ -143,6 +143,7 @@ func runC19(c *Ctx) {
 	}
 	c19R4(c, matcher, patterns, loop)
 	c19EveryCaseTried(c)
+	c19AlternativesKept(c)
 	c19R5(c)
 	c.shared("R6", "C15/R6", "a literal pattern matches when subject == literal: the matcher's equality verdict excludes unset operands like the == operator does", func(o Obligation) bool { return !strings.Contains(o.Key, "getArrayPrototype") }, func(s *Ctx) { equalityAgreement(s, "R6") })
 
@@ -691,5 +692,35 @@ func c19EveryCaseTried(c *Ctx) {
 	}
 	if n == 0 {
 		c.undecided("R2", "every-case-is-tried", p.Pos(ee.Pos()), "no call of the pattern matcher inside a loop over ExprMatch.Cases found")
+	}
+}
+
+// the parser hands every alternative of a case to the evaluator
+func c19AlternativesKept(c *Ctx) {
+	p := c.P
+	c.note("R4 alternatives-kept: in the match parselet the pattern list stored in MatchCase.Exprs is the list to which every parsed alternative was appended (rendering: the loop-carried slice with append(slice, expression())), not a list derived from it — dropping or reordering alternatives changes which names a case binds.")
+	mp := p.LangFunc("match")
+	if mp == nil {
+		c.undecided("R4", "match-parselet", "", "anchor lang.match not found")
+		return
+	}
+	n := 0
+	for _, f := range p.privateCluster(mp) {
+		for _, st := range storesToField(f, "MatchCase", "Exprs", false) {
+			n++
+			r := p.Render(st.Val)
+			const E = "[(*lang.Parser).expression(p)#0][:]"
+			const L = "φslice⟨[][:0] | append(φslice, " + E + ")⟩"
+			okList := true
+			for _, leaf := range phiLeaves(strings.ReplaceAll(r, L, "LIST")) {
+				if leaf != "LIST" && leaf != "append(LIST, "+E+")" {
+					okList = false
+				}
+			}
+			c.check(okList, "R4", fmt.Sprintf("alternatives-kept #%d", n), p.InstrPos(st), "MatchCase.Exprs = every alternative in source order", "the pattern list of a case is "+abbrev(r, 160)+", not the list of all parsed alternatives: some alternatives are dropped before the evaluator sees them")
+		}
+	}
+	if n == 0 {
+		c.undecided("R4", "alternatives-kept", p.Pos(mp.Pos()), "no store to MatchCase.Exprs found in the match parselet")
 	}
 }
